@@ -302,14 +302,21 @@ def run_ref_stale(run, P):
                         out.append(ap(t['a'][i]))
             return out
 
+        def through(t):
+            """holder paths this expression dereferences (X->session->...)"""
+            return [ap(x['b']) for x in walk(t) if isinstance(x, dict) and x.get('k') == 'mem' and x.get('arrow') and ap(x.get('b')) in paths]
+
         def is_rule_event(ev):
             t = ev['e']
             if any(ev is r[0] for r in rels):
                 return True
             if t.get('k') == 'call' and frees(t):
                 return True
+            if through(t):
+                return True
             return t.get('k') == 'asg' and ap(t['l']) in (paths | bases)
         keys, R = relevance(f, is_rule_event)
+        used = set()
 
         def on_event(ev, env, ctx):
             t = ev['e']
@@ -321,6 +328,15 @@ def run_ref_stale(run, P):
             st = env.ts.get('stale', ())
             if not st:
                 return None
+            if ev.get('top', True):
+                for pth in through(t):
+                    for x in st:
+                        if x[0] == pth and (ev['loc'], pth) not in used:
+                            used.add((ev['loc'], pth))
+                            run.oblige('R-REF-HOLD', False, '%s:released-reference-not-used' % name)
+                            run.violation('R-REF-HOLD', name, ev['loc'], 'released-reference-used',
+                                          '`%s` goes through the holder\'s session pointer after the reference it stood for was released (%s): when that was the last '
+                                          'reference the session is freed memory here' % (short(t)[:60], x[2].rsplit('/', 1)[-1]), ctx.path())
             if t.get('k') == 'call':
                 fr = frees(t)
                 if fr:
@@ -343,7 +359,7 @@ def run_ref_stale(run, P):
             n += 1
             run.instance('R-REF-HOLD', '%s: releases the reference held by a holder (%s)' % (name, short(r[0]['e']['a'][0])))
         solve(f, Env(), on_event, on_exit, keys, R, key_fn=lambda e: tuple(x[0] for x in e.ts.get('stale', ())))
-    run.require(n >= (3 if run.cfg == 'base' else 2) or run.fixture_mode, 'R-REF-HOLD(stale): fewer than 3 releases of holder references found')
+    run.require_count(n >= (3 if run.cfg == 'base' else 2) or run.fixture_mode, 'R-REF-HOLD(stale): fewer than 3 releases of holder references found')
 
 
 def run_sess_evt(run, P, only=None):
@@ -612,7 +628,7 @@ def run_hashed(run, P):
                                       'coap_session_free() then empties the whole table of the endpoint / context and orphans every other session' % t['fn'], ctx.path())
             return None
         solve(f, Env({'added': 0}), on_event, None, keys, R, key_fn=lambda e: (e.ts.get('added'), tuple(e.nullf(v) for v in sorted(made))))
-    run.require(n >= (2 if getattr(run, 'cfg', 'base') == 'base' else 0) or run.fixture_mode, 'R-SESS-HASHED: fewer than 2 releases of sessions made in the same function found')
+    run.require_count(n >= (2 if getattr(run, 'cfg', 'base') == 'base' else 0) or run.fixture_mode, 'R-SESS-HASHED: fewer than 2 releases of sessions made in the same function found')
 
 
 def run_touch(run, P):
@@ -676,7 +692,7 @@ def run_touch(run, P):
                                   'reclaimed or evicted as idle' % FIELD, ctx.path())
             return None
         solve(f, Env(), on_event, None, keys, R, key_fn=lambda e: (tuple(sorted((k, v) for k, v in e.ts.items() if k[:2] in ('t:', 'o:'))), tuple(e.nullf(v) for v in sorted(svars))))
-    run.require(n >= 1 or run.fixture_mode or run.cfg != 'base', 'R-SESS-EVT(idle accounting): no function that returns a session and refreshes last_rx_tx found')
+    run.require_count(n >= 1 or run.fixture_mode or run.cfg != 'base', 'R-SESS-EVT(idle accounting): no function that returns a session and refreshes last_rx_tx found')
 
 
 def run_key_zero(run, P):
@@ -802,4 +818,4 @@ def run_key_zero(run, P):
                     run.violation('R-SESS-KEY', fn, f['loc'], 'local-key-not-zeroed:%s' % v,
                                   'the local %s %s is hashed by its bytes but nothing in %s() zeroes it as a whole (no memset of it, no call that hands it to a function '
                                   'that zeroes the record first): its padding is stack garbage and the look-up misses sessions that exist' % (rec, v, fn), [])
-    run.require((nw >= 1 and nl >= 1) or run.fixture_mode or run.cfg != 'base', 'R-SESS-KEY: expected at least one writer of a byte-hashed key record and one local look-up key (coap_make_addr_hash, coap_endpoint_get_session)')
+    run.require_count((nw >= 1 and nl >= 1) or run.fixture_mode or run.cfg != 'base', 'R-SESS-KEY: expected at least one writer of a byte-hashed key record and one local look-up key (coap_make_addr_hash, coap_endpoint_get_session)')
